@@ -398,7 +398,7 @@ class Assembler:
         m = re.fullmatch(r'(\d+)\s+`(.*)`\s*=>\s*`(.*)`', sarg.strip())
         if not m:
             raise LostAnchor('%s:%d: bad replace syntax' % (rel, no))
-        n, old, new = int(m.group(1)), m.group(2), m.group(3)
+        n, old, new = int(m.group(1)), m.group(2).replace('<NL>', '\n'), m.group(3)
         pos = self._nth(sf, s, e, old, n, '%s:%d' % (rel, no))
         edits.append((pos, pos + len(old), new, 'rewrite'))
         self.meta['rewrites'].append(dict(kind='declared-replace', where=what, old=old, new=new, repo_line=sf.line_of(pos)))
